@@ -109,13 +109,22 @@ func (g *Generator) getAllConstructors() (structs, enums []goifiedName) {
 		structs = append(structs, goify(method.Name+"Params", true))
 	}
 
-	for _, items := range g.schema.Enums {
+	for enumType, items := range g.schema.Enums {
 		for _, enum := range items {
-			enums = append(enums, goify(enum.Name, true))
+			enums = append(enums, enumValueName(enum.Name, enumType))
 		}
 	}
 
 	return structs, enums
+}
+
+// enumValueName returns identifier of the enum value. Like for structs, value which is named exactly as its type
+// (null#56730bcc = Null) gets Obj suffix, cause type and constant can't share one identifier
+func enumValueName(valueName, enumType string) goifiedName {
+	if goify(valueName, true) == goify(enumType, true) {
+		return goify(valueName+"Obj", true)
+	}
+	return goify(valueName, true)
 }
 
 func interfaceIsEnum(in []tlparser.Object) bool {
